@@ -22,6 +22,7 @@ import (
 	"errors"
 	"fmt"
 	"math/rand"
+	"net"
 	"net/http"
 	"net/http/httptest"
 	"net/url"
@@ -910,8 +911,15 @@ func runC20(tier string, seed int64, outdir string, replay string) error {
 			host = q.Host
 			id = q.Header.Get("X-C20-Case")
 		}
+		// the address that is really contacted: without port and without the brackets of an IPv6
+		// literal (SubjectIsInternal itself does not recognise "[::1]" without a port)
+		bare := host
+		if h, _, err := net.SplitHostPort(bare); err == nil {
+			bare = h
+		}
+		bare = strings.TrimSuffix(strings.TrimPrefix(bare, "["), "]")
 		pmu.Lock()
-		seenBy[id] = append(seenBy[id], contact{Plain: q.Method != http.MethodConnect, Host: host, Internal: certmagic.SubjectIsInternal(host)})
+		seenBy[id] = append(seenBy[id], contact{Plain: q.Method != http.MethodConnect, Host: host, Internal: certmagic.SubjectIsInternal(bare)})
 		pmu.Unlock()
 		rw.WriteHeader(http.StatusBadRequest)
 	}))
@@ -1055,6 +1063,21 @@ func runC20(tier string, seed int64, outdir string, replay string) error {
 		return nil
 	}
 
+	if n, _ := strconv.Atoi(os.Getenv("C20_CONTACT_STRESS")); n > 0 {
+		for round := 0; round < n; round++ {
+			var jobs []contactJob
+			for i := 0; i < 600; i++ {
+				u := c20GenURL(rr)
+				if i%2 == 0 {
+					jobs = append(jobs, contactJob{u, "", false})
+				} else {
+					jobs = append(jobs, contactJob{"https://acme.example.com/dir", u, true})
+				}
+			}
+			runContacts(jobs)
+		}
+		return nil
+	}
 	// ---- replay of one recorded case
 	if replay != "" {
 		rc, err := loadReplay(replay)
@@ -1252,6 +1275,12 @@ func runC20(tier string, seed int64, outdir string, replay string) error {
 	jobs = append(jobs, contactJob{good, "http://testca.public.example/dir", true}, contactJob{"http://localhost:9/dir", "", false},
 		contactJob{good, "", false}, contactJob{"http://acme.example.com/dir", "", false}, contactJob{good, "http://10.1.2.3/dir", true},
 		contactJob{good, "testca.public.example/dir", true}, contactJob{good, "http:testca.public.example/dir", true})
+	// every host of the table over plain HTTP, as CA and as test CA: whatever the rule lets through
+	// must be internal under the name that is really contacted (f8aa9e1: "example.İnternal")
+	for _, h := range c20Hosts {
+		jobs = append(jobs, contactJob{"http://" + h + "/dir", "", false}, contactJob{good, "HTTP://" + h + ":8080/dir", true})
+	}
+	nContact += len(jobs)
 	for i := 0; i < nURL; i++ {
 		u := c20GenURL(rr)
 		switch rr.Intn(4) {
